@@ -434,6 +434,108 @@ func c09Bursts(e *Env, addrs []string) {
 		e.R.Distinct(c.name)
 	}
 	e.R.SetExtra("burst_part_ms", time.Since(tBurst).Milliseconds())
+	// candidate lists whose direct entries all fail (closed port), with
+	// duplicates: the relay-prefixed entry must then be tried, and a list
+	// without any reachable entry must be reported as failed - judged on the
+	// attempts' own end-of-attempt reports, not on a duration: once every
+	// direct attempt has reported its end, the call must move on
+	deadA, deadB := net.JoinHostPort(addrs[0], "9"), net.JoinHostPort(addrs[len(addrs)-1], "9")
+	type deadCase struct {
+		name  string
+		cands []string
+		relay bool
+	}
+	var deadCases []deadCase
+	for rep := 0; rep < e.Pick(2, 8); rep++ {
+		deadCases = append(deadCases,
+			deadCase{"dead-duplicates+relay", []string{deadA, deadA, "turn:" + good}, true},
+			deadCase{"dead-duplicates+dead+relay", []string{deadA, deadB, deadA, deadB, "turn:" + good}, true},
+			deadCase{"dead-duplicates-only", []string{deadA, deadA}, false},
+			deadCase{"dead-no-duplicates+relay", []string{deadA, deadB, "turn:" + good}, true})
+	}
+	{
+		vk.ParallelDo(len(deadCases), 8, func(di int) {
+			dc := deadCases[di]
+			prober := <-pool
+			var mu sync.Mutex
+			ended := map[string]int{}
+			lastEnd := time.Time{}
+			ctx, cancel := context.WithTimeout(context.Background(), 20*time.Second)
+			type res struct {
+				conn *quic.Conn
+				err  error
+			}
+			rch := make(chan res, 1)
+			go func() {
+				conn, err := prober.ProbeAndDial(ctx, dc.cands, quictransport.ClientConfig(), vk.QUICConfig(false, 5*time.Second), func(u ice.ProbeUpdate) {
+					if u.State != ice.ProbeStateProbing {
+						mu.Lock()
+						ended[u.Addr]++
+						lastEnd = time.Now()
+						mu.Unlock()
+					}
+				})
+				rch <- res{conn, err}
+			}()
+			// wait until every distinct direct candidate has reported its end
+			direct := map[string]bool{}
+			for _, c := range dc.cands {
+				if !strings.HasPrefix(c, "turn:") {
+					direct[c] = true
+				}
+			}
+			var r res
+			returned := false
+			deadline := time.After(19 * time.Second)
+		wait:
+			for {
+				select {
+				case r = <-rch:
+					returned = true
+					break wait
+				case <-deadline:
+					break wait
+				case <-time.After(50 * time.Millisecond):
+					mu.Lock()
+					all := len(ended) >= len(direct) && !lastEnd.IsZero() && time.Since(lastEnd) > 6*time.Second
+					mu.Unlock()
+					if all {
+						break wait
+					}
+				}
+			}
+			e.R.Eval()
+			e.R.Distinct("burst:" + dc.name)
+			mu.Lock()
+			nEnded := len(ended)
+			mu.Unlock()
+			switch {
+			case !returned && nEnded >= len(direct):
+				e.R.Violate("dial:stuck-after-all-direct-attempts-ended:"+dc.name, fmt.Sprintf("every direct attempt (%d distinct) reported its end more than 6 s ago, yet ProbeAndDial neither tried the relay-prefixed candidate nor reported failure", len(direct)), map[string]any{"class": dc.name, "candidates": dc.cands}, nil)
+			case !returned:
+				e.R.Inconcl(dc.name + ": the direct attempts did not end within the watchdog")
+			case dc.relay && r.err != nil:
+				e.R.Violate("dial:no-connection:"+dc.name, fmt.Sprintf("ProbeAndDial failed although the relay-prefixed candidate was reachable: %v", r.err), map[string]any{"class": dc.name}, nil)
+			case !dc.relay && r.err == nil:
+				e.R.Violate("dial:connection-without-reachable-candidate:"+dc.name, "ProbeAndDial returned a connection although no candidate was reachable", map[string]any{"class": dc.name}, nil)
+			default:
+				e.R.Count("dead_direct_lists_handled")
+			}
+			if r.conn != nil {
+				_ = r.conn.CloseWithError(0, "")
+			}
+			cancel()
+			if returned {
+				pool <- prober
+			} else {
+				// the prober is stuck with that call: replace it
+				if np, err := ice.NewProber(ice.ProberConfig{StunServers: []string{"127.0.0.1:9"}}, vk.Quiet); err == nil {
+					pool <- np
+				}
+			}
+		})
+	}
+	e.R.Require(e.R.Counter("dead_direct_lists_handled") >= e.Pick(4, 16) || len(e.R.Violations) > 0, "too few lists of failing direct candidates reached a verdict")
 	// steered orders at the two scheduling points around the attempt spawn loop
 	// (serial: the hooks are process-global)
 	steered := 0
